@@ -56,13 +56,15 @@ type subProcess struct {
 	mch                    chan imessage
 }
 
-func newSubProcess(eventBuilder event.IDefinitionInstanceBuilder, idGenerator id.IGenerator, subProcessElement *schema.SubProcess) constructor {
+func newSubProcess(parent context.Context, eventBuilder event.IDefinitionInstanceBuilder, idGenerator id.IGenerator, subProcessElement *schema.SubProcess) constructor {
 	return func(parentWiring *wiring) (act Activity, err error) {
 
 		flowNodeMapping := NewLockedFlowNodeMapping()
 		defer flowNodeMapping.Finalize()
 
-		ctx, cancel := context.WithCancel(context.Background())
+		// the inner tracer ends with the instance: detached from it, the tracer of a
+		// sub-process that no token reached outlived a cancelled instance
+		ctx, cancel := context.WithCancel(parent)
 		subTracer := tracing.NewTracer(ctx)
 		process := &subProcess{
 			wr:                     parentWiring,
@@ -335,7 +337,7 @@ func newSubProcess(eventBuilder event.IDefinitionInstanceBuilder, idGenerator id
 				return
 			}
 			var node *harness
-			sp := newSubProcess(eventBuilder, idGenerator, element)
+			sp := newSubProcess(ctx, eventBuilder, idGenerator, element)
 			node, err = newHarness(wr, idGenerator, sp)
 			if err != nil {
 				return
